@@ -15,7 +15,7 @@ LEVEL = "model_checking"
 RULE = (
     "BFS: every sequence of operations up to the stated depth over the alphabet {get of every ordered list of "
     "distinct URIs up to the stated length from {a,b,c,a<<x,big,missing}, remove(u), purge, reopen(with/without "
-    "eviction), touch(u), age(u), foreign(name)} x size limits {2500, 3500} bytes, states de-duplicated by a canonical "
+    "eviction), touch(u), age(u), foreign(name)} x size limits {1500, 2500, 3500} bytes, states de-duplicated by a canonical "
     "form (files with content-id, on-disk recency rank, model last-use class, membership of the in-memory index; foreign "
     "files; size limit); every transition executes the real method in sequential AND controlled-parallel mode and steps the "
     "reference model; invariants I1..I9 evaluated on every transition. Schedules: every interleaving of the download pool "
@@ -33,10 +33,12 @@ REQUIRED_CATEGORIES = {
     "thorough": ["eviction", "hit", "miss", "enlarge", "missing_uri", "reopen", "lru_pairs_checked", "preempted_schedule"],
 }
 
-U = {n: lab.SCHEME + n for n in ("a", "b", "c", "big", "missing")}
+U = {n: lab.SCHEME + n for n in ("a", "c", "big", "missing")}
+U["b"] = lab.ALT_SCHEME + "b"  # served by a second resource whose scheme sorts before the first
 U["ax"] = lab.SCHEME + "a<<x"
 URIS = [U["a"], U["b"], U["c"], U["ax"], U["big"], U["missing"]]
-FOREIGN = ["notes.txt", "cachefile_prefixonly", "only_postfix_cachefile"]
+FOREIGN = ["notes.txt", "cachefile_prefixonly", "only_postfix_cachefile", "cachefile_0123abcd_cachefile.bak",
+           "x_cachefile_0123abcd_cachefile"]
 FOREIGN_CONTENT = {n: ("foreign:" + n).encode() * 3 for n in FOREIGN}
 
 
@@ -508,7 +510,9 @@ def units(tier):
     # separately, depth 3 with requests of 1..3 URIs (shards partition by the first operation)
     configs = [(3, 2, 8)] if tier == "quick" else [(4, 2, 32), (3, 3, 16)]
     for depth, maxlen, nshards in configs:
-        for limit in (2500, 3500):
+        # 2500 / 3500: zero, one or several evictions; 1500: a hit plus a miss together exceed the limit
+        # although the miss alone fits (the enlargement must count the whole request)
+        for limit in (2500, 3500, 1500):
             for s in range(nshards):
                 us.append({"name": f"bfs:d{depth}:get{maxlen}:limit{limit}:shard{s}", "kind": "bfs", "limit": limit,
                            "depth": depth, "maxlen": maxlen, "first": s, "nshards": nshards, "cost": 10 * depth})
